@@ -90,7 +90,11 @@ def reference(pool):
             data += chunk
         os.close(r)
         os.waitpid(pid, 0)
-        refs.append(data.decode("utf-8", "replace").split(" ", 1)[0] if data else None)
+        text = data.decode("utf-8", "replace")
+        refs.append(text.split(" ", 1)[0] if data else None)
+        _st.setdefault("ref_classes", {})
+        cls = (text.split(" ", 2)[1].rstrip(":") if len(text.split(" ", 2)) > 1 else "none") if data else "no-reference"
+        _st["ref_classes"][cls] = _st["ref_classes"].get(cls, 0) + 1
     return refs
 
 
@@ -293,7 +297,9 @@ def run_shard(shard):
     pool = build_pool(shard["seed"], shard["pool"])
     refs = reference(pool)
     acc.count("reference_signatures", sum(r is not None for r in refs))
-    acc.seen("reference_outcome_classes", "see counters")
+    for k, v in _st.get("ref_classes", {}).items():
+        acc.seen("reference_outcome_classes", k)
+    _st["ref_classes"] = {}
     rnd = random.Random(f"{shard['seed']}:{shard['kind']}:{shard['idx']}")
     if shard["kind"] == "history":
         for h in range(shard["histories"]):
